@@ -16,10 +16,11 @@ def Q4x(n):
     return [x for r in rows4(n) for x in r]
 
 
-LEVEL_TEXT = ("Coq theorems, for all unit quaternions, over 23 regenerated public routes: every quaternion->matrix route (Quaternion, scalar-last "
+LEVEL_TEXT = ("Coq theorems, for all unit quaternions (and, for the object routes, all non-zero quaternions: the constructor's normalisation is part of the "
+              "proved behaviour), over 23 regenerated public routes: every quaternion->matrix route (Quaternion, scalar-last "
               "Quaternion, QuaternionArray incl. N=3/N=4 batches, DCM(q=) through its SO(3) gate, from_quaternion single/batch, q2R v1/v2 single/batch) "
               "returns the textbook matrix, which is in SO(3); homomorphism through every product entry point; -q and conjugate; rotate = matrix = sandwich; "
-              "q_rot = inverse rotation; plus vm_compute float correspondence and a search oracle (routes, batches, dtypes, object state)")
+              "q_rot = inverse rotation; plus vm_compute float correspondence and search oracles (routes, batches, memory layouts, dtypes, object state, extreme vectors)")
 LEVEL_NOTE = ("theorems are over exact reals (orthogonality in binary64 is a few-ulp residual, explored only); trusted: Coq kernel, pysym translator, "
               "stdlib real-number axioms")
 TECHNIQUE = "pysym regeneration through the real constructors + Coq (ring modulo unit-norm hypotheses) + vm_compute correspondence + search oracle"
